@@ -139,5 +139,5 @@ def harnesses(tier, seed):
         for term in ("find", "first"):
             for c in (1, 2):
                 heavy.append(h(term, "E", 3, 2, c, "sym", (1, 1, 1)))
-        hs = cap(light, 500, seed) + cap(heavy, 80, seed)
+        hs = cap(light, 250, seed) + cap(heavy, 50, seed)
     return hs
